@@ -59,6 +59,21 @@ def __check_ensemble_data(obs, ens):
     return obs, ens, nforc, nens
 
 
+def __check_series(obs, sim):
+    """ Convert obs and sim to arrays. When sim is a single series,
+    series stored as [n,1] arrays are converted to [n] arrays so
+    that obs and sim are not broadcast against each other. """
+    obs = np.atleast_1d(obs)
+    sim = np.atleast_1d(sim)
+    if sim.ndim == 1 or sim.shape[1:] == (1,):
+        if obs.ndim == 2 and obs.shape[1] == 1:
+            obs = obs[:, 0]
+        if sim.ndim == 2:
+            sim = sim[:, 0]
+
+    return obs, sim
+
+
 def __nonulldata(tobs, tsim):
     """ Exclude nan data from obs and sim """
 
@@ -409,8 +424,7 @@ def bias(obs, sim, trans=transform.Identity(), excludenull=False,
         Simulation bias
     """
     # Check data
-    obs = np.atleast_1d(obs)
-    sim = np.atleast_1d(sim)
+    obs, sim = __check_series(obs, sim)
 
     if obs.shape != sim.shape:
         raise ValueError("Expected sim with dim equal " +
@@ -472,8 +486,7 @@ def nse(obs, sim, trans=transform.Identity(), excludenull=False):
 
     """
     # Check data
-    obs = np.atleast_1d(obs)
-    sim = np.atleast_1d(sim)
+    obs, sim = __check_series(obs, sim)
 
     if obs.shape[0] != sim.shape[0]:
         raise ValueError("Expected sim with dim equal " +
@@ -579,8 +592,7 @@ def kge(obs, sim, trans=transform.Identity(), excludenull=False):
 
     """
     # Check data
-    obs = np.atleast_1d(obs)
-    sim = np.atleast_1d(sim)
+    obs, sim = __check_series(obs, sim)
 
     if obs.shape[0] != sim.shape[0]:
         raise ValueError("KGE - Expected sim with dim equal " +
